@@ -83,7 +83,7 @@ func replayEvents(events []Event) (*Graph, error) {
 			}
 			meta := graph.Meta[data.ID]
 			if meta != nil {
-				meta.LastStateAt = ts
+				meta.LastStateAt = maxTime(meta.LastStateAt, ts)
 			}
 		case "claim":
 			var data ClaimEvent
@@ -161,7 +161,7 @@ func replayEvents(events []Event) (*Graph, error) {
 			task.UpdatedAt = maxTime(task.UpdatedAt, ts)
 			meta := graph.Meta[data.ID]
 			if meta != nil {
-				meta.LastTitleAt = ts
+				meta.LastTitleAt = maxTime(meta.LastTitleAt, ts)
 			}
 		case "body":
 			var data BodyUpdateEvent
@@ -183,7 +183,7 @@ func replayEvents(events []Event) (*Graph, error) {
 			task.UpdatedAt = maxTime(task.UpdatedAt, ts)
 			meta := graph.Meta[data.ID]
 			if meta != nil {
-				meta.LastBodyAt = ts
+				meta.LastBodyAt = maxTime(meta.LastBodyAt, ts)
 			}
 		case "epic":
 			var data EpicAssignEvent
@@ -205,7 +205,7 @@ func replayEvents(events []Event) (*Graph, error) {
 			task.UpdatedAt = maxTime(task.UpdatedAt, ts)
 			meta := graph.Meta[data.ID]
 			if meta != nil {
-				meta.LastEpicAt = ts
+				meta.LastEpicAt = maxTime(meta.LastEpicAt, ts)
 			}
 		case "unclaim":
 			var data UnclaimEvent
